@@ -24,6 +24,17 @@ CHECKS = {
              "executed by real handlers that pyc.exec instrumented code, comparing invocation log (depth, occurrence), raises and switches.",
         note="Trusted: Coq kernel + vm_compute; hand transcription of the switch handling and gating (validated by correspondence); harness. Single thread.",
         ref="DESIGN.md section 7 C16"),
+    "C17": dict(
+        technique="Coq proof (independence of the main thread's view from other threads' steps, induction over arbitrary schedules) with the switch kind regenerated from source + deterministic-scheduler correspondence",
+        text="C17_main: for every number of threads/emissions, tracer configuration and EVERY schedule (list of thread ids over the statement-level steps of "
+             "_emit_event/_emit_tracer_loop) the main thread's deliveries, switches and progress equal those under the schedule with all other threads' "
+             "steps removed; C17_workers: worker emissions reach only multi-thread tracers. Both are stated for gen/Switches.v, regenerated from emit_event.py "
+             "on every run (module globals vs threading.local): they only type-check while the switches are per-thread. C17_shared_switches_refuted keeps "
+             "the 27-step witness of the defect that was fixed. Tied to the code by replaying 60 schedules on the real emit_event.py with a sys.settrace "
+             "scheduler that parks threads before each modelled statement, and 80 behaviour trees run inside a worker thread (model/Reent.v).",
+        note="Trusted: Coq kernel + vm_compute; translator gen_switches.py; GIL statement-level atomicity is modelled, not verified; the settrace scheduler; "
+             "handlers are observing and thread-safe themselves.",
+        ref="DESIGN.md section 7 C17"),
     "C20": dict(
         technique="Coq proof (induction over well-nested operation blocks) on a transcribed model + in-coqc correspondence with the real TraceStack",
         text="Seven Qed-closed theorems over model/Stack.v (every well-nested operation sequence, every declaration with distinct names, every field order): "
